@@ -501,6 +501,8 @@ def session_events(obs_list, tag=""):
                 e["illformed"] = True
             if o.get("noref"):
                 e["noref"] = True
+            if o.get("strict"):
+                e["strict"] = True
             if o.get("anyorder"):
                 e["anyorder"] = o["anyorder"]
             if o.get("cache"):
